@@ -1,5 +1,5 @@
 SPECIFICATION Spec
-CONSTANTS N = 360 DirMax = 2 LosR = 1 LosMax = 3 LosToStep = 1 LimbR = 2 LimbMax = 6 SunR = 2 SunMax = 6
+CONSTANTS N = 360 DirMax = 2 LosR = 1 LosMax = 3 LosToStep = 1 LimbR = 2 LimbMax = 6 SunR = 2 SunMax = 6 PenK = 8 PenOut = 2
 CONSTANT Kinds <- KindsAll
 CONSTANT RectShapes <- RectShapesQuick
 CONSTANT AzGrid <- AzGridQuick
@@ -9,6 +9,9 @@ CONSTANT Cones <- ConesQuick
 CONSTANT MaskGrid <- MaskGridQuick
 CONSTANT MaskAz <- MaskAzQuick
 CONSTANT MaskEl <- MaskElQuick
+CONSTANT MaskAzCfg <- MaskAzCfgQuick
+CONSTANT PenFrames <- PenFramesAll
+CONSTANT PenDist <- PenDistQuick
 CONSTANT ElMaskShapes <- ElMaskShapesAll
 CONSTANT ElMaskAz <- ElMaskAzAll
 CONSTANT ElMaskEl <- ElMaskElAll
@@ -26,6 +29,12 @@ INVARIANT MaskSound
 INVARIANT MaskTwoBranch
 INVARIANT MaskRotationEquivariant
 INVARIANT MaskComplement
+INVARIANT DirectInvertedElevationEmpty
+INVARIANT DirectMaskAsGiven
+INVARIANT ConfiguredArcAdmitted
+INVARIANT ConfigKeepsAzimuthOrder
+INVARIANT ConfigElevationUnordered
+INVARIANT PenBand
 INVARIANT LosSymmetric
 INVARIANT LosIsSegmentTest
 INVARIANT LosRigidInvariant
